@@ -2546,11 +2546,10 @@ namespace bxdecay0 {
       if (name_starts_with(chnuclide_, "Ta182")) {
         Ta182(prng_, event_, 0., tdnuc);
       }
-      if (name_starts_with(chnuclide_, "Te133")) {
-        Te133(prng_, event_, 0., tdnuc);
-      }
       if (name_starts_with(chnuclide_, "Te133m")) {
         Te133m(prng_, event_, 0., tdnuc);
+      } else if (name_starts_with(chnuclide_, "Te133")) {
+        Te133(prng_, event_, 0., tdnuc);
       }
       if (name_starts_with(chnuclide_, "Te134")) {
         Te134(prng_, event_, 0., tdnuc);
